@@ -21,7 +21,7 @@ ASSUMPTIONS = [
     'C11: weekday arithmetic: operands ok() (0..7, 7 == Sunday), days full int32; month +- months: any stored value 0..254, months full int32; month - month, weekday - weekday: ok() operands',
     'C11: year_month_day_last::day() only for ok() operands (unspecified otherwise)',
     'C11: the Gregorian calendar model in the driver (leap rule, month lengths, successor) is the specification of "dates that exist"; the anchor day numbers were computed '
-    'independently (Python) and are static_assert-ed against libstdc++ for the two range ends',
+    'independently (Python) and are static_assert-ed against libstdc++ for the two range ends; model.h is validated natively against libstdc++ on every day of the range, every run (validate_model.cpp)',
     'C11: year_month_weekday::ok() for index 5 and weekday-of-date are checked compositionally against etl\'s own sys_days{ymd} (itself pinned down by L3 + anchors) on the whole range, '
     'and against libstdc++ directly only on a window of years',
     'C11: libstdc++ 12 <chrono> compiled through the same clang -> IR -> C pipeline is the oracle for "as std does" (its days/months/years Rep is int64)',
@@ -37,6 +37,27 @@ SPECIAL = {'q_civil_step', 'q_days_step', 'q_roundtrip_era', 'q_roundtrip_ymd_er
 C02_SKIP = {'q_civil_step', 'q_days_step', 'q_roundtrip_era', 'q_roundtrip_ymd_era', 'q_civil_std', 'q_days_std', 'q_wd_of_date_std', 'q_ok_ymw_std'}
 
 
+_MODEL_OK = None
+
+
+def model_validated():
+    """DESIGN.md 1.7(3): model.h (the calendar rules the driver uses as specification) against libstdc++, natively, every run."""
+    global _MODEL_OK
+    if _MODEL_OK is None:
+        import subprocess, tempfile
+        d = tempfile.mkdtemp(prefix='vf_calendar_model_')
+        try:
+            exe = os.path.join(d, 'validate_model')
+            r = subprocess.run(['g++', '-std=c++20', '-O2', '-I' + HERE, os.path.join(HERE, 'validate_model.cpp'), '-o', exe], capture_output=True, timeout=300)
+            _MODEL_OK = r.returncode == 0 and subprocess.run([exe], capture_output=True, timeout=300).returncode == 0
+        except Exception:
+            _MODEL_OK = False
+        finally:
+            import shutil
+            shutil.rmtree(d, ignore_errors=True)
+    return _MODEL_OK
+
+
 def queries(tier, prop='C11'):
     ub = prop == 'C02'
     quick = tier == 'quick'
@@ -48,6 +69,9 @@ def queries(tier, prop='C11'):
         out.append(dict(entry=entry, cfg=cfg or {}, unwind=20, solver=solver, budget=budget, ub=ub, nofunc=ub))
 
     two = ['kissat', 'cadical']
+    if not ub and not model_validated():
+        # reported by the runner as a check error (no such entry): the hand-written calendar model disagrees with libstdc++ or could not be validated
+        q('q_CALENDAR_MODEL_DISAGREES_WITH_LIBSTDCXX_see_validate_model_cpp')
     # L1 and L3 (4 cases): whole range, both tiers
     q('q_civil_step', solver=two, budget=900)
     for c in (0, 1, 2, 3):
